@@ -522,6 +522,13 @@ def byte_lt(a, b):
     return z3.ULT(a, b)
 
 
+WIDE_COMPARE = 12
+
+
+def _bv8(x):
+    return z3.BitVecVal(x, 8) if isinstance(x, int) else x
+
+
 def _z(x):
     if x is True:
         return z3.BoolVal(True)
@@ -658,6 +665,23 @@ class SymBytes(object):
             res = len(a) < len(oi)
         else:
             res = len(a) <= len(oi)
+        nsym = 0
+        for k in range(n):
+            if not (isinstance(a[k], int) and isinstance(oi[k], int)):
+                nsym += 1
+        if nsym > WIDE_COMPARE:
+            # long stems: compare the common-length prefixes as big-endian integers
+            # (one comparator instead of a deep if-then-else chain)
+            k0 = 0
+            while k0 < n and isinstance(a[k0], int) and isinstance(oi[k0], int) and a[k0] == oi[k0]:
+                k0 += 1
+            if k0 < n and isinstance(a[k0], int) and isinstance(oi[k0], int):
+                return a[k0] < oi[k0]
+            A = z3.Concat([x if not isinstance(x, int) else z3.BitVecVal(x, 8) for x in a[k0:n]]) if n - k0 > 1 else _bv8(a[k0])
+            B = z3.Concat([x if not isinstance(x, int) else z3.BitVecVal(x, 8) for x in oi[k0:n]]) if n - k0 > 1 else _bv8(oi[k0])
+            if res is True:
+                return z3.ULE(A, B)
+            return z3.ULT(A, B)
         for k in range(n - 1, -1, -1):
             x, y = a[k], oi[k]
             e = byte_eq(x, y)
